@@ -125,6 +125,10 @@ def run_subn(mods, pattern, repl, source, count):
         def _do_rewrite(src, rewrite, **kw):
             out = orig(src, rewrite, **kw)
             rec["chain"].append(out)
+            if "scheduled" in kw:
+                rec["has_flag"] = True
+                if kw["scheduled"]:
+                    rec["sched_out"] = out
             return out
         return _do_rewrite
 
@@ -161,9 +165,23 @@ def run_subn(mods, pattern, repl, source, count):
     if rec["sched"] is None:
         rec["sched"] = []
     # _substitute_original_strings calls _do_rewrite too: the scheduled rewrites are the first calls
+    # (since the application step skips members that change nothing / refuses whitespace-only transactions, the
+    # scheduled calls are recognised by their scheduled=True flag where the implementation passes one)
     k = len(rec["sched"])
-    rec["cand"] = rec["chain"][k - 1] if k and len(rec["chain"]) >= k else source
+    if rec.pop("has_flag", False) or _apply_passes_flag(processing):
+        rec["cand"] = rec.pop("sched_out", source)
+    else:
+        rec["cand"] = rec["chain"][k - 1] if k and len(rec["chain"]) >= k else source
     return rec
+
+
+def _apply_passes_flag(processing):
+    """Does processing._apply_rewrites mark its own _do_rewrite calls (scheduled=True)?"""
+    import inspect
+    try:
+        return "scheduled" in inspect.signature(processing._do_rewrite).parameters
+    except (TypeError, ValueError):
+        return False
 
 
 def ignore_line_ranges(source):
